@@ -12,7 +12,7 @@ BUILTINS = {'len', 'int', 'str', 'bytes', 'bool', 'isinstance', 'type', 'range',
             'enumerate', 'bin', 'hex', 'ord', 'chr', 'any', 'all', 'divmod', 'min', 'max', 'sum', 'sorted', 'open',
             'print', 'repr', 'abs', 'set', 'object', 'ValueError', 'RuntimeError', 'Exception', 'NameError',
             'ImportError', 'IndexError', 'SyntaxError', 'KeyError', 'TypeError', 'AssertionError', 'float',
-            'reversed', 'map', 'filter', 'iter', 'next', 'getattr', 'setattr', 'hasattr', 'id', 'hash', 'pow',
+            'reversed', 'map', 'filter', 'iter', 'next', 'slice', 'getattr', 'setattr', 'hasattr', 'id', 'hash', 'pow',
             'round', 'bytearray', 'memoryview', 'frozenset', 'property', 'classmethod', 'staticmethod', 'super',
             'NotImplementedError', 'OverflowError', 'StopIteration', 'input', 'vars', 'globals', 'locals', 'eval',
             'exec', 'compile', 'callable', 'format', 'slice', '__name__'}
@@ -278,6 +278,10 @@ def _ext_call(ev, dotted, args, kwargs, fr, node):
     if dotted.startswith('builtins.'):
         if short == 'len':
             return T.len_(args[0])
+        if short == 'slice' and 1 <= len(args) <= 3 and not kwargs:
+            a = list(args)
+            lo, hi, st = (T.NONE, a[0], T.NONE) if len(a) == 1 else (a[0], a[1], a[2] if len(a) == 3 else T.NONE)
+            return T.raw_op('SLICEOBJ', lo, hi, st)
         if short == 'getattr' and len(args) in (2, 3) and not kwargs and T.is_const(args[1]) and isinstance(args[1][1], str):
             v = ev.getattr(args[0], args[1][1], fr, node)
             if T.is_op(v, 'ATTR') and T.tag(args[0]) == 'obj':
